@@ -324,6 +324,18 @@ pub fn run(tier: &str) {
             }
         }
     }
+    // payloads larger than a frame that still fit one once compressed (the 1 MiB limit is on the
+    // compressed bytes): compressible contents, every preset (thorough: every explicit level too)
+    for a in algos(thorough) {
+        for k in ["zeros", "phrase", "blocks"] {
+            for &n in &[(1usize << 20) + 1, 3 << 20] {
+                if a.name.starts_with("brotli") && matches!(a.level, Level::Highest | Level::Explicit(10) | Level::Explicit(11)) && !thorough {
+                    continue;
+                }
+                jobs.push((a.clone(), k, n));
+            }
+        }
+    }
     // largest first so that the expensive cells do not end up in the tail
     jobs.sort_by_key(|j| {
         let heavy = j.0.name.starts_with("brotli") && matches!(j.0.level, Level::Highest | Level::Explicit(10) | Level::Explicit(11));
@@ -390,6 +402,29 @@ pub fn run(tier: &str) {
         match r {
             Ok(Ok(b)) if &b == s => {}
             other => found.push(("string-codec:roundtrip".into(), format!("{s:?} -> {other:?}"), json!({"family": "string", "string": s}))),
+        }
+    }
+    // ... and every Unicode scalar value as the first, a middle and the last character
+    for cp in 0u32..=0x10FFFF {
+        let c = match char::from_u32(cp) {
+            Some(c) => c,
+            None => continue,
+        };
+        for s in [format!("{c}"), format!("{c}xy"), format!("x{c}y"), format!("xy{c}"), format!("{c}{c}")] {
+            evaluations += 1;
+            nontrivial += 1;
+            let r = guarded(|| -> Result<String, String> {
+                let e = StringCodec.encode(s.clone()).map_err(|e| e.to_string())?;
+                StringCodec.decode(&mut BytesMut::from(&e[..])).map_err(|e| e.to_string())
+            });
+            match r {
+                Ok(Ok(b)) if b == s => {}
+                other => {
+                    if found.len() < 50 {
+                        found.push(("string-codec:roundtrip".into(), format!("{s:?} -> {other:?}"), json!({"family": "string-unicode", "string": s})))
+                    }
+                }
+            }
         }
     }
     samples.push(json!({"family": "string", "string": strs[strs.len() / 2]}));
@@ -530,14 +565,14 @@ pub fn run(tier: &str) {
     let coverage = json!({
         "evaluations": evaluations,
         "distinct_nontrivial": nontrivial,
-        "rule": "compression grid: {gzip, zlib, zstd, brotli generic/text/font} x {default, fastest, balanced, highest_ratio} (+ every explicit level: deflate 0-9, zstd 0-22, brotli 0-11) + lz4, x 11 content classes (zeros, 0xff, counter, fixed-seed LCG, repeated phrase, alternating blocks, and the output of each of the five compressors as payload) x sizes (quick: presets on {0,1,2,3,15,16,65537,2^20}, explicit levels on {0,1,17,4097}; thorough: everything on all 18 sizes up to 2^20); string codec on all strings of length <=3 over a 10-character alphabet; bytes codec on all byte strings of length <=2; bincode on boundary values of 12 types; one compressor/decompressor instance per algorithm and preset driven through 15 payloads with 1-4 damaged copies (truncated, corrupted body, corrupted trailer) before each; all byte strings of length <=2 (thorough 3) plus all strings of length 3-4 over 19 UTF-8 boundary bytes against an independent UTF-8 validator; wire composition on all batches of <=3 items from a 4-string pool x 14 compression settings. All cells are distinct by construction; non-trivial = non-empty input",
+        "rule": "compression grid: {gzip, zlib, zstd, brotli generic/text/font} x {default, fastest, balanced, highest_ratio} (+ every explicit level: deflate 0-9, zstd 0-22, brotli 0-11) + lz4, x 11 content classes (zeros, 0xff, counter, fixed-seed LCG, repeated phrase, alternating blocks, and the output of each of the five compressors as payload) x sizes (quick: presets on {0,1,2,3,15,16,65537,2^20}, explicit levels on {0,1,17,4097}; thorough: everything on all 18 sizes up to 2^20; plus the compressible classes at 2^20+1 and 3*2^20 bytes, which still fit a frame once compressed); string codec also on every Unicode scalar value as the first, middle and last character; string codec on all strings of length <=3 over a 10-character alphabet; bytes codec on all byte strings of length <=2; bincode on boundary values of 12 types; one compressor/decompressor instance per algorithm and preset driven through 15 payloads with 1-4 damaged copies (truncated, corrupted body, corrupted trailer) before each; all byte strings of length <=2 (thorough 3) plus all strings of length 3-4 over 19 UTF-8 boundary bytes against an independent UTF-8 validator; wire composition on all batches of <=3 items from a 4-string pool x 14 compression settings. All cells are distinct by construction; non-trivial = non-empty input",
         "exhaustive": true,
         "compress_cells": jobs.len(),
         "cells_where_output_is_smaller_than_input": compressed_smaller,
         "samples": samples,
         "explanation": "oracle is identity (and error-iff-invalid for UTF-8); the compression libraries are third-party, the grid decides selium's wiring: finish/flush before taking bytes, library selection on both sides, level plumbing"
     });
-    rep.assume("inputs outside the grid (other contents, sizes above 1 MiB) are not covered");
+    rep.assume("inputs outside the grid (other contents, incompressible payloads above 1 MiB) are not covered");
     rep.finish(coverage);
 }
 
